@@ -638,7 +638,7 @@ func ParentMain(propID, tier, replay string) int {
 		"wall_s":      time.Since(t0).Seconds(),
 		"violations":  newViol,
 	}
-	if replay == "" {
+	if replay == "" && os.Getenv("VERIF_NOEVIDENCE") == "" {
 		os.MkdirAll(filepath.Join(Root(), "evidence"), 0o755)
 		if err := WriteJSON(filepath.Join(Root(), "evidence", propID+".json"), ev); err != nil {
 			fmt.Fprintln(os.Stderr, "cannot write evidence:", err)
